@@ -144,4 +144,88 @@ PROPS = {
         "partial": ["selection function only; order independence is proved for version sets that Version::cmp separates, "
                     "the unrestricted statement is refuted (F-C06a)"],
     },
+    "C01": {
+        "harness": "c01",
+        "props_file": "Props/C01.v",
+        "run_module": "Model.Graph Model.Walk Model.RunC15 Model.RunC02 Model.RunC14 Model.Prune Model.RunC17 Model.Builder Model.RunC01",
+        "run_fn": "run_c01",
+        "pinned_theorems": ["C01_single_entry_step", "C01_recorded_dep", "C01_nothing_pending"],
+        "rule": ("proviso worlds of 2-11 modules (JS/TS/JSX/TSX/d.ts/mjs/mts/JSON by extension or content-type header; "
+                 "static/named/type-only/dynamic/export-star/export-type/@deno-types/reference types+path/self-types/"
+                 "x-typescript-types/JSDoc/import-type imports; json/text/bytes/bogus attributes as a function of the "
+                 "target; file/http/https/node:/malformed jsr:/npm:; redirects incl. chains and loops, missing, erroring, "
+                 "external, unparsable entries), graph kind x is_dynamic x skip_dynamic_deps x unstable bytes/text x "
+                 "max_redirects in {0,2,10} x configured imports. Each module's declaration is obtained from the REAL "
+                 "parse_module for the graph kind; the real builder's graph (entries with structured errors and "
+                 "referrers, redirects, per-module dependencies with code/type targets, attributes, dynamic flags, "
+                 "external/asset flags, configured imports, has_node, multiset of loader calls) must equal the "
+                 "extracted model's. non-trivial = >= 3 entries and (an error, a redirect or a dynamic dependency)"),
+        "assumptions": [
+            "stage B1: no JSR/npm resolution, no source-phase imports, no source maps, no locker, utf-8 sources",
+            "the loader is a function of its arguments",
+        ],
+        "partial": ["the two-sided closure theorem C01_closure is not yet proved; closure is checked per case (model = real builder; C15/C02 on the same real graphs)"],
+    },
+    "C03": {
+        "harness": "c03",
+        "props_file": "Props/C03.v",
+        "run_module": "Model.Graph Model.Walk Model.RunC15 Model.RunC02 Model.RunC14 Model.Prune Model.RunC17 Model.Builder Model.RunC01",
+        "run_fn": "run_c01",
+        "level": "proof",
+        "pinned_theorems": ["C03_no_pending", "C03_step_invariant", "C03_error_entry"],
+        "rule": ("fault enumeration: EVERY assignment of a response kind {module, missing, load error, external, "
+                 "unparsable, self-redirect, redirect to each other specifier} to each of the 4 specifiers of a base "
+                 "world (9^4 = 6561 assignments; quick: 1 base world, thorough: 3) x graph kind, plus 2000 (quick) "
+                 "sampled C01 worlds. Per case on the REAL code: build under catch_unwind, serialised graph free of "
+                 "INTERNAL ERROR, no pending entry, error entries stored under their own specifier with a referrer "
+                 "unless reached from a root, fault locality (every module that does not transitively depend on a "
+                 "faulted specifier equals its entry in the fault-free build), and equality with the builder model's "
+                 "graph. non-trivial = at least one error entry and one module"),
+        "assumptions": [
+            "stage B1 (see C01); JSR/npm registry faults, checksum faults and undecodable bytes are not enumerated yet",
+            "fixed: F-C03b (self-redirect left a pending entry) was found by this machinery and repaired in /repo commit 76358fe",
+        ],
+        "partial": ["termination of the build loop is not proved (fuel; checked per case)", "registry/npm/checksum faults not covered"],
+    },
+    "C04": {
+        "harness": "c04",
+        "props_file": "Props/C04.v",
+        "run_module": "Model.Graph Model.Walk Model.RunC15 Model.RunC02 Model.RunC14 Model.Prune Model.RunC17 Model.Builder Model.RunC01",
+        "run_fn": "run_c01",
+        "pinned_theorems": ["C04_schedule_independent", "C04_scheduled_equals_sequential", "C04_poll_delivers"],
+        "rule": ("C01 worlds biased towards several dynamic branches sharing a failing descendant; each world is built "
+                 "on the REAL code once with an immediately-ready loader, 6 (quick) / 25 (thorough) more times in the "
+                 "same process (fresh hasher state), and under 8 / 40 random completion schedules: the loader returns "
+                 "gated futures, the build future is polled by hand and at each suspension one outstanding load chosen "
+                 "by the schedule completes. Serialised graph + every error with its referrer range must be identical "
+                 "across all builds, and the reference build must equal the (schedule-free) model's graph. "
+                 "non-trivial = at least 3 loads simultaneously outstanding"),
+        "assumptions": [
+            "the loader is a function of its arguments (a loader whose answers drift between calls makes 'the same sources' meaningless)",
+            "single-threaded futures: deno_unsync's spawn is replaced by an inline executor",
+            "fixed: F-C04a (HashMap iteration order of dynamic branches/deferred loads decided error referrers) repaired in /repo commit 7535c3a",
+        ],
+        "partial": ["JSR content-load queue (FuturesUnordered) and metadata-store futures are not in the scheduler model"],
+    },
+    "C19": {
+        "harness": "c19",
+        "props_file": "Props/C19.v",
+        "run_module": "Model.Graph Model.Walk Model.RunC15 Model.RunC02 Model.RunC14 Model.Prune Model.RunC17 Model.Builder Model.RunC01 Model.RunC19",
+        "run_fn": "run_c19",
+        "pinned_theorems": ["C19_known_roots_identity", "C19_incremental_no_pending", "C19_root_context_refuted"],
+        "rule": ("histories on C01 worlds (default dynamic options, 2-4 plain roots): 50% an ordered partition of the "
+                 "roots into 2-3 successive builds vs. all roots at once; 10% a rebuild with the same roots vs. the "
+                 "graph before it; 40% 1-2 source edits (add/remove a dependency, module disappears, module becomes "
+                 "unparsable) of modules that are entries of the graph, reload of the edited specifiers, vs. a "
+                 "from-scratch build of the new sources. All histories run on the REAL code; the final real graph must "
+                 "equal the model's (which executes the same history) and is judged against the alternative real "
+                 "graph by the extracted judge (error referrers blanked: which importer is recorded legitimately "
+                 "depends on request order). non-trivial = final graph with >= 3 entries"),
+        "assumptions": [
+            "reloaded specifiers are plain (attribute-less) targets: reload always requests a specifier as a root without attribute",
+            "after a reload, entries outside the newly reachable set must be unchanged unless they are the reloaded specifiers themselves or new",
+            "known findings F-C19a, F-C19b are reported as KNOWN-FINDING",
+        ],
+        "partial": ["convergence theorems over the model are not yet proved; decided per history on the real code"],
+    },
 }
